@@ -427,3 +427,26 @@ Qed.
 
 Lemma mark_consistent_true : forall a, mark_consistent a = true.
 Proof. intros a. unfold mark_consistent. rewrite mark_tokens, mark_kept, !tokl_list_refl. reflexivity. Qed.
+
+(* ---- the statements of Props.v that are one step away from the lemmas above *)
+Lemma fmt_idempotent_ex : forall ts a, parse ts = Some a -> wf a = true ->
+  exists out, fmt ts = Some out /\ fmt out = Some out.
+Proof.
+  intros ts a Hp Hwf. destruct (fmt_idempotent ts a Hp Hwf) as [H1 H2].
+  exists (print (norm a)). split; assumption.
+Qed.
+
+Lemma fmt_ast_without_empties : forall ts a,
+  parse ts = Some a -> wf a = true -> norm a = a ->
+  exists out, fmt ts = Some out /\ parse out = parse ts.
+Proof.
+  intros ts a Hp Hwf Hn. destruct (fmt_meaning ts a Hp Hwf) as (out & H1 & H2).
+  exists out. split; [exact H1|]. rewrite H2, Hn, Hp. reflexivity.
+Qed.
+
+Lemma layout_ok_strip : forall cpos f m, layout_ok cpos f m = true -> map strip f = map strip m.
+Proof. intros cpos f m H. apply toks_eqb_eq. eapply layout_ok_toks. exact H. Qed.
+
+Lemma mark_is_formatter : forall a,
+  map fst (mark a) = print a /\ map fst (filter snd (mark a)) = print (norm a) /\ mark_consistent a = true.
+Proof. intros a. split; [apply mark_tokens|split; [apply mark_kept|apply mark_consistent_true]]. Qed.
